@@ -92,10 +92,11 @@ def make(Y, sp):
         hash(b), b <= a
         c = b.update_query(zz="2").extend_query(y="1")
         hash(c)
-        d = c.with_query(u.query)
-        hash(d)
-        e = d.with_fragment(u.fragment or None).with_scheme("x-tmp").with_scheme(u.scheme) if u.scheme else d.with_fragment(u.fragment or None)
-        return e
+        d = c.with_fragment(u.fragment or None)
+        d = d.with_scheme("x-tmp").with_scheme(u.scheme) if u.scheme else d
+        hash(d), d == c
+        # the last step is a query operation on a hashed parent: its result must not inherit the parent's memoised hash
+        return d.with_query(u.query)
     if r == "with_path":
         u = URL(s)
         return u.with_path(u.path, keep_query=True, keep_fragment=True) if u.raw_path != "/" else u
